@@ -1,6 +1,7 @@
 SPECIFICATION Spec
 CONSTANTS
   ProtosIn <- ProtosFromFile
+  ViewsIn <- ViewsFromFile
   NThreads = 3
   OpsPerThread = 1
-INVARIANTS NoDeadlock LockSane
+INVARIANTS NoDeadlock LockSane ViewsOK GuardedOK ViewsRecorded
